@@ -62,6 +62,28 @@ def coq_case(pr, iterative, code, eff):
         G.coq_optw(pr['wuv']), nat(code), lst([q(frac(v)) for v in eff])))
 
 
+def rel_det(pr):
+    """exact relative determinant of the weighted centred scatter matrix of uv: det(S) / (Suu * Svv), in [0, 1];
+    0 for collinear / coincident points"""
+    from fractions import Fraction as F
+    n = len(pr['uv'])
+    w = [F(1)] * n
+    for key in ('wxy', 'wuv'):
+        if pr[key] is not None:
+            w = [a * (F(b_) if b_ > 0 else F(0)) for a, b_ in zip(w, pr[key])]
+    W = sum(w)
+    if W == 0:
+        return F(0)
+    um = sum(a * F(p[0]) for a, p in zip(w, pr['uv'])) / W
+    vm = sum(a * F(p[1]) for a, p in zip(w, pr['uv'])) / W
+    suu = sum(a * (F(p[0]) - um) ** 2 for a, p in zip(w, pr['uv']))
+    svv = sum(a * (F(p[1]) - vm) ** 2 for a, p in zip(w, pr['uv']))
+    suv = sum(a * (F(p[0]) - um) * (F(p[1]) - vm) for a, p in zip(w, pr['uv']))
+    if suu == 0 or svv == 0:
+        return F(0)
+    return (suu * svv - suv * suv) / (suu * svv)
+
+
 def gen_case(rng, t):
     geom = G.GEOMS[t % 4]
     stream = ['valid', 'valid', 'valid', 'valid', 'valid', 'special', 'degenerate', 'malformed'][(t // 4) % 8]
@@ -157,7 +179,15 @@ def run(ck):
         problems.append(c)
     for t in range(N):
         problems.append(gen_case(rng, t))
+    from fractions import Fraction
     for pr in problems:
+        if pr['geom'] == 'general' and pr['stream'] in ('valid', 'special') and pr['n'] >= 3:
+            rd = rel_det(pr)
+            if 0 < rd < Fraction(1, 2 ** 20):
+                # nearly collinear beyond the conditioning the tolerances are meant for (rounding error of the
+                # normal equations ~ eps / rel_det): not compared, counted
+                ck.discard('general fit with exact relative determinant of the uv scatter below 2^-20')
+                continue
         for iterative in (False, True):
             code, eff, fit = run_impl(lf, pr, iterative)
             if code == 0 and not all(np.isfinite(np.array(eff, dtype=float))):
